@@ -967,5 +967,7 @@ package corerad
 //@   loop 1 invariant L1 [C10,C20]: 0 <= i && i <= 40 && ghost.attempts == i && fn != nil && ctx != nil && (ghost.attempts >= 1 ==> ghost.last != nil && !errIs(ghost.last, global("http.ErrServerClosed")))
 //@   ensures E1 [C10,C20]: ghost.attempts <= 40
 //@   ensures E2 [C10,C20]: result != nil ==> ghost.attempts >= 1 && (result == ghost.last || ghost.attempts == 40)
+//@   loop 1 invariant L2 [C20]: ghost.attempts >= 1 ==> errAs(ghost.last, "*net.OpError")
 //@   ensures E3 [C10,C20]: ghost.attempts >= 1 && errIs(ghost.last, global("http.ErrServerClosed")) ==> result == nil
+//@   ensures E4 [C20]: ghost.attempts >= 1 && !errIs(ghost.last, global("http.ErrServerClosed")) && !errAs(ghost.last, "*net.OpError") ==> result == ghost.last
 //@   opt safety [C20]
